@@ -451,6 +451,15 @@ func specials0() map[string]*gs.Schema {
 			Addl: &gs.Schema{Kind: gs.KArray, Items: str()}},
 		"WithAddlRef": {Kind: gs.KObject, Props: []gs.Prop{{Name: "id", Schema: &gs.Schema{Kind: gs.KInteger}, Required: true}},
 			Addl: &gs.Schema{Kind: gs.KRef, Ref: "Base"}},
+		// every declared property optional: the empty object is a valid document, on its own and as a (required) property value
+		"WithAddlOpt": {Kind: gs.KObject, Props: []gs.Prop{{Name: "name", Schema: str()}}, Addl: &gs.Schema{Kind: gs.KInteger}},
+		"HoldsAddl": {Kind: gs.KObject, Props: []gs.Prop{{Name: "id", Schema: &gs.Schema{Kind: gs.KInteger}, Required: true},
+			{Name: "labels", Schema: &gs.Schema{Kind: gs.KRef, Ref: "WithAddlOpt"}, Required: true}, {Name: "settings", Schema: &gs.Schema{Kind: gs.KRef, Ref: "WithAddlOpt"}}}},
+		// a map whose values are a named map with validations of its own (and a holder of such a map)
+		"Labels":      {Kind: gs.KMap, MaxProps: gs.I(2), Addl: &gs.Schema{Kind: gs.KString, MaxLen: gs.I(3)}},
+		"LabelGroups": {Kind: gs.KMap, Addl: &gs.Schema{Kind: gs.KRef, Ref: "Labels"}},
+		"GroupHolder": {Kind: gs.KObject, Props: []gs.Prop{{Name: "groups", Schema: &gs.Schema{Kind: gs.KMap, Addl: &gs.Schema{Kind: gs.KRef, Ref: "Labels"}}},
+			{Name: "list", Schema: &gs.Schema{Kind: gs.KArray, Items: &gs.Schema{Kind: gs.KMap, Addl: &gs.Schema{Kind: gs.KRef, Ref: "Labels"}}}}}},
 		"MaxOnly":    {Kind: gs.KObject, MaxProps: gs.I(2), Props: []gs.Prop{{Name: "a", Schema: str()}, {Name: "b", Schema: str()}, {Name: "c", Schema: str()}}},
 		"MinOnly":    {Kind: gs.KObject, MinProps: gs.I(2), Props: []gs.Prop{{Name: "a", Schema: str()}, {Name: "b", Schema: str()}}},
 		"BothBounds": {Kind: gs.KObject, MinProps: gs.I(1), MaxProps: gs.I(2), Props: []gs.Prop{{Name: "a", Schema: str()}, {Name: "b", Schema: str()}, {Name: "c", Schema: str()}}},
